@@ -9,6 +9,7 @@ printed as text when they are valid keys, else as `#<hex>`.
   reset                              forget all stores and the sha table
   create <fs|mem|map> <rr>           one whole Create call                 -> ok <key> | err <code> | panic | stuck
   createw fs limit=<n> <rr>          Create while the staging file cannot grow beyond n bytes -> as create
+  bigcreate <store> size= fail= code= seed= piece= key=   one large generated stream -> ok <key> | err <code>
   hashrd <rr>                        hashutil.HashReader                   -> ok <key> | err <code>
   spawn fs <rr>                      start a Create, run it to its first Read -> id=<i> ret=- objs=[..] tmp=[..]
   step fs <i>                        deliver creator i's next read result, run it to its next Read or return
@@ -163,6 +164,12 @@ def step (d0 : DS) (line : String) : DS × String :=
       let s := runCreate sha (input.length + 2) (d.fs.spawn input) i
       ({ d with fs := s }, fsCreateRes s i)
     | _, _ => (d, "bad-op")
+  | "bigcreate" :: _store :: rest =>
+    -- one large stream: the model has no size bound, its answer does not depend on the size;
+    -- the harness resets the stores around the op (the object is not entered into the state)
+    match kv rest "fail", kvNat rest "code", kv rest "key" with
+    | some f, some c, some k => (d, if f = "-1" then s!"ok {k}" else s!"err {c}")
+    | _, _, _ => (d, "bad-op")
   | ["hashrd", rr] =>
     -- hashutil.HashReader: the digest of a complete input, the input's error otherwise
     match parseRR rr with
